@@ -7,7 +7,9 @@ import (
 	"math"
 
 	"github.com/EliCDavis/polyform/formats/splat"
+	"github.com/EliCDavis/polyform/generator/artifact"
 	"github.com/EliCDavis/polyform/modeling"
+	"github.com/EliCDavis/polyform/nodes"
 	"github.com/EliCDavis/vector/vector3"
 	"github.com/EliCDavis/vector/vector4"
 
@@ -162,6 +164,20 @@ func (k *checker) splatCase(in []SplatIn, scope string, cs Case) {
 		return
 	}
 	written := append([]byte{}, buf.Bytes()...)
+	// the node-graph entry point (splat.ArtifactNode) writes the same bytes
+	if mode == 0 {
+		var nb bytes.Buffer
+		var nerr error
+		g := core.Guard(func() {
+			var art artifact.Artifact
+			if art, nerr = (splat.ArtifactNodeData{In: nodes.Value(buildSplatMesh(in)).Out()}).Process(); nerr == nil {
+				nerr = art.Write(&nb)
+			}
+		})
+		if g.Panicked || nerr != nil || !bytes.Equal(nb.Bytes(), written) {
+			k.fail("splat.ArtifactNodeData.Process", "the node-graph entry point writes the bytes splat.Write writes", fmt.Sprintf("n=%d", min(n, 2)), fmt.Sprint("artifact bytes differ from splat.Write's ", g.Msg, " ", nerr), cs)
+		}
+	}
 	o = core.Guard(func() { back, rerr = splat.Read(shaped(written, mode)) })
 	if o.Panicked || rerr != nil {
 		c.Eval(scope, "read-failed")
